@@ -41,6 +41,57 @@ class C12(FprCheck):
                 yield {"t": "converge", "ref": ref, "conf": ci, "tr": None, "opts": dict(o, level=-1),
                        "queries": [{"level": -1, "bits": None, "mask": []}, {"level": 3, "bits": None, "mask": []}]}
 
+        # shell radii that coincide bit for bit with an interatomic distance of the conformer (radius_multiplier = d / k for
+        # k in {1, 2, 4}: k * (d / k) == d exactly): the pair lies *on* the level-k sphere, "within" means <=, and a run limited
+        # to k must see it exactly as level k of a longer run does
+        import numpy as np
+        from scipy.spatial.distance import pdist
+        for ref, ci in self.sample_confs(6 if self.tier == "quick" else 120):
+            case0 = {"ref": ref, "conf": ci, "tr": None}
+            try:
+                mol, conf = build(case0)
+            except Exception:  # noqa: BLE001
+                continue
+            heavy = [a.GetIdx() for a in mol.GetAtoms() if a.GetAtomicNum() > 1]
+            if len(heavy) < 3:
+                continue
+            pos = conf.GetPositions()
+            ds = [float(x) for x in pdist(np.array([pos[i] for i in heavy])) if 1.0 <= x <= 3.2]
+            if not ds:
+                continue
+            d, k = rng.choice(ds), rng.choice([1, 1, 2, 4])
+            o = MG.gen_opts(rng, level=self.L)
+            o["radius_multiplier"] = d / k
+            o["bits"] = 2 ** 32
+            if rng.random() < 0.3:
+                o["remove_duplicate_substructs"] = False
+            self.count("long-run:radius-equals-a-distance")
+            yield {"t": "long", "ref": ref, "conf": ci, "tr": None, "opts": o, "tie_level": k,
+                   "queries": [{"level": q, "bits": None, "mask": []} for q in list(range(0, self.L + 4)) + [-1]]}
+
+    def _watched(self, o, mol, conf, fp):
+        """the same run driven step by step through the iterator protocol, asked for fingerprints between the steps"""
+        w = MG.make_fprinter(o)
+        w.reset_mol()
+        w.initialize_mol(mol)
+        w.initialize_conformer(conf)
+        while True:
+            try:
+                next(w)
+            except StopIteration:
+                break
+            w.get_fingerprint_at_level()
+            for k in range(0, 6):
+                w.get_fingerprint_at_level(k)
+            w.get_shells_at_level(2)
+        lv = list(range(0, min(self.L, fp.current_level + 3) + 1)) + [-1]
+        for k in lv:
+            a, b = dump_fp(w.get_fingerprint_at_level(k)), dump_fp(fp.get_fingerprint_at_level(k))
+            if a != b:
+                return {"key": "watched-run-differs", "what": "a run driven with next() and asked for fingerprints between the steps reports "
+                        "another level-%d fingerprint (%d set positions) than a plain run (%d)" % (k, len(a["idx"]), len(b["idx"]))}
+        return None
+
     def prop(self, case):
         if case["t"] != "long":
             return None
@@ -55,6 +106,9 @@ class C12(FprCheck):
         def ids(f, k):
             return sorted(int(s.identifier) for s in f.get_shells_at_level(k))
         reached = fp.current_level
+        r = self._watched(o, mol, conf, fp)
+        if r:
+            return r
         prev = None
         for k in range(0, reached + 1):
             cur = ids(fp, k)
